@@ -1,6 +1,6 @@
 (* ClientidRun.v — line-protocol adapter for the C18 models (harness glue, executable).
      clientid ring <cap> <op,op,…>        op = s<id16hex>:<addr> | g<id16hex> ; addr = n | x<hex>
-        -> gets=<r,r,…> len=<len(entries)> cur=<len(current)>     r = - (not ok) | n (nil) | x<hex>
+        -> gets=<r,r,…> len=<len(entries)> cur=<len(current)>     r = _ (not ok) | n (nil) | x<hex>
      clientid san x<hex of client_ip> <parsed>      parsed = a (empty param) | u (ParseIP nil) | p<32hex>
         -> x<hex of clientAddr(..).String()>
      clientid bb <cap> <ev,ev,…>          ev = c<id16hex>:x<hex of client_ip>:<parsed> | a<id16hex>
@@ -69,7 +69,7 @@ Definition ev_parse (t : bytes) : option event :=
   end.
 
 Definition get_print (g : option addr) : bytes :=
-  match g with None => bs "-" | Some a => addr_print a end.
+  match g with None => bs "_" | Some a => addr_print a end.
 
 Definition run (args : list bytes) : bytes :=
   match args with
